@@ -35,6 +35,7 @@ func extras() []core.Extra {
 		{Name: "malformed-exhaustive", Run: extraMalformed},
 		{Name: "concurrent-use", Run: extraParallel},
 		{Name: "huge-output", Run: extraHuge},
+		{Name: "trans-diff-grammar", Run: extraTransGrammar},
 	}
 }
 
